@@ -1,7 +1,7 @@
 (* API entries for the Monero (C16) and Cardano (C18) models. *)
 From Coq Require Import NArith ZArith List String Bool.
 From BU Require Import Base.Exn Base.Val Base.Radix Base.Bytes Gen.ConstsCardmon Extract.ApiCommon.
-From BU Require Model.XmrB58 Model.EdLib Model.AddrXmr Model.Monero.
+From BU Require Model.XmrB58 Model.EdLib Model.AddrXmr Model.Monero Model.CborEnc Model.Bip32Kholaw Model.ByronLegacyDeriv.
 Import ListNotations.
 Open Scope string_scope.
 
@@ -31,6 +31,18 @@ Definition vopt_b (o : option (list N)) : val := match o with Some b => VL [VB b
 Definition opt_of_val (v : val) : option (option (list N)) :=
   match v with VL [] => Some None | VL [VB b] => Some (Some b) | _ => None end.
 
+
+(* ---- Cardano (C18) ---- *)
+Definition master_fuel : nat := 200.
+Definition vnode (n : Bip32Kholaw.node) : val :=
+  VL [vopt_b (Bip32Kholaw.n_priv n); VB (Bip32Kholaw.n_pub n); VB (Bip32Kholaw.n_cc n); VN (Bip32Kholaw.n_depth n)].
+Fixpoint zs_of_vals (l : list val) : option (list Z) :=
+  match l with
+  | [] => Some []
+  | VZ z :: t => match zs_of_vals t with Some r => Some (z :: r) | None => None end
+  | _ => None
+  end.
+
 Definition api (ask : string -> list val -> val) : list api_entry :=
   let keccak := o_keccak256 ask in
   let M_from_seed := Monero.from_seed keccak pt (e_mul ask) (e_base ask) e_is_zero e_enc in
@@ -48,6 +60,24 @@ Definition api (ask : string -> list val -> val) : list api_entry :=
   let subaddress := Monero.subaddress keccak pt (e_add ask) (e_mul ask) (e_base ask) e_is_zero e_enc (e_dec ask) (e_refused ask) in
   let primary := Monero.primary_address keccak pt (e_add ask) (e_mul ask) (e_base ask) e_is_zero e_enc (e_dec ask) (e_refused ask) in
   let integrated := Monero.integrated_address keccak pt (e_dec ask) in
+  let hmac512 := o_hmac_sha512 ask in
+  let hmac256 := o_hmac_sha256 ask in
+  let pbkdf2 := o_pbkdf2_sha512 ask in
+  let sha512 := o_sha512 ask in
+  let kh_der := Bip32Kholaw.kh_derivator pt (e_mul ask) (e_base ask) e_is_zero e_enc in
+  let by_der := ByronLegacyDeriv.by_derivator pt (e_mul ask) (e_base ask) e_is_zero e_enc in
+  let node_from_priv := Bip32Kholaw.node_from_priv pt (e_mul ask) (e_base ask) e_is_zero e_enc in
+  let derive := Bip32Kholaw.derive hmac512 pt (e_add ask) (e_mul ask) (e_base ask) e_is_zero e_enc (e_dec ask) in
+  (* scheme 0 Kholaw seed, 1 Icarus seed, 2 Byron legacy seed, 3 Kholaw private key + chain code,
+     4 Byron-legacy private key + chain code *)
+  let start (scheme : N) (a cc : list N) : res Bip32Kholaw.node :=
+    match scheme with
+    | 0%N => Bip32Kholaw.kh_from_seed hmac512 hmac256 pt (e_mul ask) (e_base ask) e_is_zero e_enc master_fuel a
+    | 1%N => Bip32Kholaw.ic_from_seed pbkdf2 pt (e_mul ask) (e_base ask) e_is_zero e_enc a
+    | 2%N => ByronLegacyDeriv.by_from_seed hmac512 sha512 pt (e_mul ask) (e_base ask) e_is_zero e_enc master_fuel a
+    | _ => node_from_priv a cc 0%N
+    end in
+  let der_of (scheme : N) := match scheme with 2%N | 4%N => by_der | _ => kh_der end in
   [
   ("xmrb58_encode", fun a => match a with [VB b] =>
       Ok (VB (AddrXmr.b58x_encode b)) | _ => bad_call end);
@@ -67,6 +97,25 @@ Definition api (ask : string -> list val -> val) : list api_entry :=
       | 3%N, [VB pid] => rb (integrated w pid)
       | 4%N, [] => rb (Monero.private_spend_key w)
       | 5%N, [VZ minor; VZ major] => rmap (fun k => VL [VB (fst k); VB (snd k)]) (compute_keys w minor major)
+      | _, _ => bad_call
+      end
+    | _ => bad_call end);
+  ("kh_master", fun a => match a with [VN scheme; VB seed] =>
+      rmap (fun m => VL [VB (fst m); VB (snd m)])
+        (match scheme with
+         | 0%N => Bip32Kholaw.kh_master hmac512 hmac256 master_fuel seed
+         | 1%N => Bip32Kholaw.ic_master pbkdf2 seed
+         | _ => ByronLegacyDeriv.by_master hmac512 sha512 master_fuel seed
+         end)
+    | _ => bad_call end);
+  (* [scheme; a; cc; path1; public?; path2]: derive path1, optionally ConvertToPublic, derive path2 *)
+  ("kh_derive", fun a => match a with [VN scheme; VB x; VB cc; VL p1; VN pubflag; VL p2] =>
+      match zs_of_vals p1, zs_of_vals p2 with
+      | Some path1, Some path2 =>
+        n0 <- start scheme x cc ;;
+        n1 <- derive (der_of scheme) n0 path1 ;;
+        n2 <- derive (der_of scheme) (if N.eqb pubflag 0 then n1 else Bip32Kholaw.to_public n1) path2 ;;
+        Ok (vnode n2)
       | _, _ => bad_call
       end
     | _ => bad_call end);
